@@ -41,6 +41,9 @@ KEYS = {
     'source': ['a', 'b', 'a-b', 'a_b', 1, '1', (1, 'a'), b'pk'],
     'sql': ['a', 'b', 'a-b', 'a_b', 1, '1', b'pk'],
 }
+# string keys that look like the names klepto itself uses inside a directory archive (entry prefix K_, temporary prefix .I_,
+# leading underscore): a second, small key domain for every configuration
+PREFIX_KEYS = ['Kelvin', '_count', '.I_x', 'K', 'a']
 VALUES = {
     'any': ['v1', 2, None, [1, 2.5], {'n': (1, 2)}],
     'fs': ['v1', 2, None, [1, 2.5], {'n': (1, 2)}],
